@@ -206,7 +206,9 @@ pub fn directive_file(rng: &mut Rng, o: &DirGenOpts) -> DirFile {
   };
   if rng.chance(1, 4) {
     feats.push("shebang");
-    b.same(&format!("#!/usr/bin/env deno{}", nl));
+    // (a hashbang line is `#!` followed by anything up to the end of the line)
+    let sb = ["#!/usr/bin/env deno", "#!/usr/bin/env deno", "#! /usr/bin/env -S deno run", "#!deno run", "#!", "#!\t/bin/sh -x"][rng.below(6)];
+    b.same(&format!("{}{}", sb, nl));
   }
   // leading comments
   // every sixth file mentions the line word nowhere: only file directives and plain comments in the header, no
